@@ -39,6 +39,8 @@ def main():
         # the switch is toggled on the main thread, the call is made from a thread started afterwards
         {"ops": [["call", "bad", "thread"], ["set", "1"], ["call", "bad", "thread"], ["call", "bad"], ["set", "0"], ["call", "bad", "thread"], ["call", "good", "thread"]]},
         {"decorate_disabled": True, "ops": [["set", "true"], ["call", "bad", "thread"], ["set", "false"], ["call", "bad", "thread"]]},
+        # the switch is flipped by the decorated function's own body (a decorated `set_checking` helper), in both directions
+        {"ops": [["set", "1"], ["call", "good", "flip"], ["call", "bad", "flip"], ["call", "bad"], ["set", "0"], ["call", "good", "flip"], ["call", "bad"], ["call", "good"]]},
     ]
     for _ in range(1500 if R.thorough else 6):
         ops = []
@@ -46,7 +48,7 @@ def main():
             if R.rng.random() < .45:
                 ops.append(["set", R.rng.choice(["0", "1", "true", "FALSE", {"py": "True"}, {"py": "False"}])])
             else:
-                ops.append(["call", R.rng.choice(["good", "bad", "bad"])] + (["thread"] if R.rng.random() < .3 else []))
+                ops.append(["call", R.rng.choice(["good", "bad", "bad"])] + (["thread"] if R.rng.random() < .3 else ["flip"] if R.rng.random() < .3 else []))
         scheds.append({"decorate_disabled": R.rng.random() < .4, "ops": ops})
     env_values = ["0", "1", "true", "TRUE", "False", "yes", "", "2", "tRuE"]
     out = vf.impl("impl_config.py", {"values": allv, "schedules": scheds, "env_values": env_values}, timeout=900)
@@ -91,6 +93,16 @@ def main():
                 off = st["flag"] or ntc
                 R.count("call:%s:%s" % ("off" if off else "on", op[1]))
                 desc = "%s, decorated while disabled=%s, ops %s, at call(%s) with flag=%s" % (kname, sched.get("decorate_disabled", False), sched["ops"], op[1], st["flag"])
+                flip = len(op) > 2 and op[2] == "flip"
+                if flip and kname.startswith("dataclass"):
+                    continue          # no body to flip the switch from
+                if flip:
+                    desc += " -- the BODY flips the switch during this call"
+                    if st["depth"][0] != st["depth"][1] or st["enclosing"] != [["a", 9]]:
+                        R.violation("property", "a call during which the switch is flipped leaves the caller's context changed: stack depth %s, enclosing bindings %s (expected a=9): %s" % (st["depth"], st["enclosing"], desc),
+                                    {"kind": kname, "schedule": sched, "step": st}, key={"kind": "flip-context", "callable": kname})
+                    if not off and op[1] == "bad":
+                        continue      # checking was on at entry and is switched off mid-call: whether the ill-typed call still raises is not stated
                 if off:
                     nontriv.add((kname, json.dumps(sched["ops"]), op[1]))
                     if not st["same"]:
